@@ -7,7 +7,7 @@ CONSTANTS
   IdClasses = {"low", "gen", "high"}
   DictForms = {"plain", "cf-length-bits", "cf-no-length", "no-length"}
   Roots = {"object", "objstm"}
-  Dev = {"encrypt_dict_decrypted"}
+  Dev = {"metadata_flag_honoured_below_v4"}
 INIT Init
 NEXT Next
 INVARIANTS PlaintextOrRejected
